@@ -63,7 +63,7 @@ TMaskWrite(ev) ==
 \* reads: SelectSemantics; memory must not change (the block is logged again: Frame for reads)
 ReadExp(ev, sel) ==
     LET x == Read(mem[ev.in.buf], sel)
-    IN IF ev.in.form \in {"expr", "assignexpr"} THEN [q \in 1..Len(x) |-> Add(Mul(ev.in.m, x[q], Cx(ev)), ev.in.c, Cx(ev))] ELSE x
+    IN IF ev.in.form \in {"expr", "assignexpr", "cexpr", "cassignexpr"} THEN [q \in 1..Len(x) |-> Add(Mul(ev.in.m, x[q], Cx(ev)), ev.in.c, Cx(ev))] ELSE x
 TSliceRead(ev) ==
     /\ DomainOK(ev, InDom(ev))
     /\ IF ev.out.vals = ReadExp(ev, Sel(ev.in.shape, ev.in.r)) /\ ev.out.blk = mem[ev.in.buf] THEN Good ELSE Bad(ev)
